@@ -65,7 +65,10 @@ def expected : List Gen.FnFact := [
   { name := "writeTree", recovers := false, unprot := ["writeTree"], stages := [], bareErr := 0 },   -- (depth-bounded recursion)
   { name := "parse", recovers := true, unprot := [], stages := [], bareErr := 0 },
   { name := "compiler.run", recovers := true, unprot := [], stages := [], bareErr := 0 },
-  { name := "compilePkgs", recovers := false, unprot := [".run", "newLookup"], stages := [], bareErr := 1 },
+  { name := "compilePkgs", recovers := false, unprot := [".run", "declareFuncs", "newLookup"], stages := [], bareErr := 1 },
+  { name := "declareFuncs", recovers := false, unprot := [".Index"], stages := [], bareErr := 0 },   -- (a loop over the package's declarations)
+  -- compares two host objects; its recover guards that one comparison and nothing else (no call inside it)
+  { name := "sameObject", recovers := true, unprot := [], stages := [], bareErr := 0 },
   { name := "tokenize", recovers := false, unprot := [], stages := [], bareErr := 1 },
   { name := "treeSort", recovers := false, unprot := [], stages := [], bareErr := 0 },
   { name := "joinFiles", recovers := false, unprot := ["symAtPos"], stages := [], bareErr := 0 },
@@ -96,9 +99,10 @@ theorem entry_errors_name_a_stage :
       (fun f => f.bareErr == 0 && f.stages.all (fun s =>
         ["tokenize", "parse", "load", "loadImports", "compile", "compile (imports)", "run", "run (imports)"].contains s)) = true := by decide
 
-/-- no other function of the package installs a recover that could swallow an error silently -/
+/-- no other function of the package installs a recover that could swallow an error silently (`sameObject` calls
+    nothing: the only panic its recover can meet is that of comparing two host values of an uncomparable type) -/
 theorem recovers_are_exactly :
-    (Gen.funcs.filter (·.recovers)).map (·.name) = ["VM.Func", "VM.run", "compiler.run", "parse"] := by decide
+    (Gen.funcs.filter (·.recovers)).map (·.name) = ["VM.Func", "VM.run", "compiler.run", "parse", "sameObject"] := by decide
 
 example : btErrPick 5 5 2 = .code 4 ∧ btErrPick 0 0 3 = .callSite 2 ∧ btErrPick 0 0 0 = .zero := by decide
 
